@@ -62,6 +62,7 @@ R.uf("indent_text", ["str", "int"], "str")
 
 VALID = "self._verbosity in (0, 1, 2, 4)"  # type invariant established by set_verbosity
 GATE = "gate(self._quiet, self._verbosity, 0 if flags is None else flags)"
+ANSI_LATE = "(self._format_output or self._formatter.g_force)"
 LAST = "self._stream.g_last"
 STREAM_GHOST = ["self._stream.g_count", "self._stream.g_last", "self._stream.g_text"]
 
@@ -287,7 +288,7 @@ c = R.contract(
         # accounting, and the undecorated text of the message itself
         "[C15] implies(%s and not %s, self._stream.g_count == old(self._stream.g_count) + 1 and "
         "self._lines == old(self._lines) and seq(self._content) == old(seq(self._content)))" % (GATE, ANSI),
-        "[C15] implies(%s and not %s and not (self._indent > 0 and with_indent), "
+        "[C11,C15] implies(%s and not %s and not (self._indent > 0 and with_indent), "
         "self._stream.g_last == fmt_remove(self._formatter, string) + ('\\n' if new_line else ''))" % (GATE, ANSI),
         # C15: with ANSI support the text is recorded in the section (it is what later redraws re-print)
         "[C15] implies(%s and %s, len(self._content) >= old(len(self._content)) + 2)" % (GATE, ANSI),
@@ -316,6 +317,9 @@ R.contract(
     ensures=[
         "implies(self._quiet, %s)" % UNCHANGED,
         "implies(not self._quiet, self._stream.g_count > old(self._stream.g_count))",
+        # C11: overwrite is a line-writing method - on an undecorated section the new text goes out as one line
+        "[C11,C15] implies(not self._quiet and not %s and self._indent == 0, "
+        "self._stream.g_last == fmt_remove(self._formatter, message) + '\\n')" % ANSI_LATE,
     ],
     modifies=STREAM_GHOST + ["self._lines", "self._content", "items(self._content)"],
 )
@@ -398,6 +402,8 @@ c = R.contract(
         "implies(not %s, self._lines == old(self._lines) and seq(self._content) == old(seq(self._content)))" % GATE,
         "implies(%s, self._stream.g_count > old(self._stream.g_count))" % GATE,
         "[C11,C15] implies(%s and not %s, self._stream.g_last.endswith('\\n'))" % (GATE, ANSI),
+        "[C11,C15] implies(%s and not %s and self._indent == 0, "
+        "self._stream.g_last == fmt_remove(self._formatter, string) + '\\n')" % (GATE, ANSI),
     ],
     modifies=STREAM_GHOST + ["self._lines", "items(self._content)"],
 )
@@ -465,3 +471,25 @@ for n_out in (1, 2):
         ensures=["self._outputs[%d]._indent == self._original_indents[%d]" % (i, i) for i in pairs],
         modifies=["self._outputs[%d]._indent" % i for i in pairs],
     )
+
+# ---------------------------------------------------------------- C11: which outputs are decorated
+# "an undecorated output never emits an escape byte": an output is undecorated when its formatter disables ANSI (the
+# plain formatter - whatever the stream can do) or when the stream has no ANSI support and the formatter does not force
+# it.  The constructor must classify the output accordingly: every escape-emitting path (sections, progress bars)
+# asks supports_ansi(), i.e. this flag.
+R.contract(
+    M_OUT + ":Output.__init__",
+    params={"stream": "ref OutputStream", "formatter": "ref Formatter"},
+    ensures=[
+        "self._stream is stream and self._formatter is formatter",
+        "[C11,C09] implies(formatter.g_disable and not formatter.g_force, not self._format_output)",
+        "[C11,C09] implies(not stream.g_ansi and not formatter.g_force, not self._format_output)",
+        "[C11,C09] implies(formatter.g_force, self._format_output)",
+        "[C11,C09] implies(stream.g_ansi and not formatter.g_disable, self._format_output)",
+        "not self._quiet and self._verbosity == 0 and self._indent == 0 and len(self._section_outputs) == 0",
+    ],
+    modifies=["self._stream", "self._formatter", "self._quiet", "self._format_output", "self._verbosity",
+              "self._section_outputs", "self._supports_utf8", "self._indent"],
+    note="(the formatter=None default builds a NullFormatter: not part of this case)",
+)
+OUTPUT_INIT = M_OUT + ":Output.__init__"
